@@ -92,6 +92,16 @@ CHECKS = {
              'against a naive list model on random sequences with duplicate paths and on all 3-path sets over a 3-letter alphabet.',
         note='Trusted: llvm-dwarfdump DIE parent chains, nm, the 15-line legacy demangler of the monitor (unique tokens only).',
         ref='DESIGN.md §4 C17'),
+    'C15': dict(
+        technique='runtime monitoring: differential oracle on every memory/register operation (kernel view via /proc/pid/mem before and after, raw PTRACE_GETREGS, the value stored by the program\'s own asm, llvm-objdump boundaries); DAP leg with a byte model over readMemory/writeMemory/setVariable',
+        text='Random reads at every alignment and length (word and page crossings, tails before an unmapped page, ranges starting in a hole), '
+             'word writes with boundary values into a mapped region and into a static between guard words, writes of boundary values into the '
+             'callee-saved registers inside a probe function, and disassembly with breakpoints inside the function: a read must equal the '
+             'kernel\'s bytes (error only when part of the range is unmapped), a write must change exactly [a, a+8), a register write must show in '
+             'raw GETREGS, in a read back and in what the program stores, disassembly must keep llvm-objdump boundaries without int3. The real bs '
+             'DAP adapter is driven with readMemory/writeMemory at all offsets and lengths and setVariable/setExpression read-backs.',
+        note='Trusted: /proc/<pid>/mem, PTRACE_GETREGS, llvm-objdump. Held on the operations explored after the fix commit for the tail read.',
+        ref='DESIGN.md §4 C15'),
     'C06': dict(
         technique='runtime monitoring: structural comparison of the debugger\'s Value trees with the debuggee\'s own canonical self-description (reference model = safe Rust in the program)',
         text='Generated programs hold ~40 variables each (locals, statics, thread-locals, arguments) from a recursive type grammar with boundary '
